@@ -57,6 +57,12 @@ Inductive case :=
    key_share bodies observed in the second outer hello and in the updated inner hello *)
 | CHrr (outer_ks : list kshare) (ivers : N) (irandom isid : bytes) (isuites : list N) (icomp iname : bytes)
        (iexts : list (N * bytes)) (uexts : list uext) (group : N) (pub : bytes) (obs_outer obs_inner : bytes)
+(* ApplyPreset's SNIExtension step: ECH public name (if configured), Config.ServerName, the name already in the
+   extension, and the name found in it afterwards *)
+| CPreset (pn : option bytes) (cfg_name before after : bytes)
+(* one connection served by a Config whose configured keys are `keys`: the config the client held, whether the server
+   accepted ECH, and the retry list the client received when it did not *)
+| CServer (keys : list ech_key) (client_cfg : bytes) (accepted : bool) (retry : option bytes)
 (* outcome of the client handshake *)
 | CFinish (cfg_name outer_name : bytes) (confirmed : bool) (retry : option bytes) (flight_ok : bool)
           (verify_outer verify_cfg : bool) (o : fin_obs).
@@ -104,6 +110,19 @@ Definition check (c : case) : bool :=
           end
       | _ => false
       end
+  | CPreset pn cfg_name before after =>
+      match apply_preset_sni pn cfg_name (USni before) with
+      | USni n => bytes_eqb n after
+      | _ => false
+      end
+  | CServer keys client_cfg accepted retry =>
+      let '((a, r), _) := server_step keys client_cfg in
+      Bool.eqb a accepted &&
+      (accepted || match r, retry with
+                   | Some x, Some y => bytes_eqb x y
+                   | None, None => true
+                   | _, _ => false
+                   end)
   | CFinish cfg_name outer_name confirmed retry flight_ok verify_outer verify_cfg o =>
       fin_matches (client_finish (fun n => if bytes_eqb n outer_name then verify_outer else verify_cfg)
                                  (mkView cfg_name outer_name confirmed retry None flight_ok)) o
